@@ -95,3 +95,14 @@ CHECKS["C16"] = {
     "design_ref": "5/C16",
     "assumptions": TRUST,
 }
+
+CHECKS["C19"] = {
+    "tests": [T("TestC19", 150, 2500)],
+    "level": "exploration",
+    "technique": "property-based testing (rapid): generated histories of writes, gated replications, reopen and snapshot cycles with a continuous (progress,max) sampler; monotonicity invariant over the sampled series plus rest-state bounds",
+    "rule": "rapid draws a store type, 1-2 other writers and up to 10 steps: local write runs, remote write runs (1-6 or 10-25), remote-side merges (clock jumps), merges into the observed replica (optionally with every fetch parked and released in a drawn order), close/reopen+Load(-1), snapshot save + fresh instance + LoadFromSnapshot. A sampler reads progress and max under one lock every ~20us, at every verif hook firing of the store, after every write and fetch release; each series must be non-decreasing (restarting at reopen). After every step, at rest (hook/state based): progress == max, largest Lamport clock <= max <= Len, and == Len for a single-writer log. non-trivial = a merge brought other writers' entries into a replica that already held entries; distinct = SHA-1 of the case JSON",
+    "level_text": "Generated histories with a sampling monitor; a decrease between two samples is a real decrease (reads are ordered by the sampler lock), a decrease that happens and is undone between samples can be missed.",
+    "level_note": "Only honest histories (the property's domain): rejected heads that raise max without ever being fetched are C10's business. Close resets the status by design, so the series restarts at reopen.",
+    "design_ref": "5/C19",
+    "assumptions": TRUST,
+}
